@@ -201,16 +201,66 @@ JUMPY = [
 ]
 
 
+# small statements combined systematically: whether the compiler drops a jump (gaps in its offsets), keeps every op, or
+# emits ops in an order other than their numbering depends on exactly these shapes
+TEMPLATES = {
+    "op": "a{n}();",
+    "args": "a{n}(Position<'P', 1, 2.5>, 1.5, 'str', {{english='e', german=\"g\"}}, CONST, $V, -3);",
+    "if": "if ($A == 1) {{ b{n}(); }}",
+    "if_else": "if ($A == 1) {{ b{n}(); }} else {{ c{n}(); }}",
+    "if_else_end": "if ($A == 1) {{ b{n}(); end; }} else {{ c{n}(); hold; }}",
+    "elseif": "if ($A == 1) {{ b{n}(); }} elseif ($B > 2) {{ c{n}(); }} else {{ d{n}(); }}",
+    "if_or": "if ($A == 1 || debug || $B[2]) {{ b{n}(); }}",
+    "switch_break": "switch ($A) {{ case 1: b{n}(); break; case 2: c{n}(); break; }}",
+    "switch_default_end": "switch ($A) {{ case 1: b{n}(); end; case 2: c{n}(); return; default: d{n}(); hold; }}",
+    "switch_default_fall": "switch ($A) {{ case 1: b{n}(); end; default: d{n}(); }}",
+    "switch_default_first": "switch ($A) {{ default: d{n}(); end; case 1: b{n}(); end; }}",
+    "switch_default_break": "switch ($A) {{ case 1: b{n}(); break; default: d{n}(); break; }}",
+    "switch_fallthrough": "switch (random(3)) {{ case 1: case 2: b{n}(); case 3: c{n}(); break; }}",
+    "msgswitch": "message_SwitchTalk ($A) {{ case 1: 'x' default: 'y' }}",
+    "forever": "forever {{ b{n}(); if ($A == 1) {{ break_loop; }} }}",
+    "while": "while ($A < 3) {{ b{n}(); }}",
+    "while_not": "while not ($A < 3) {{ b{n}(); continue; }}",
+    "for": "for (i{n}(); $A < 3; n{n}();) {{ b{n}(); }}",
+    "label_jump": "@l{n}; b{n}(); if ($A == 1) {{ jump @l{n}; }}",
+    "jump_fwd": "if ($A == 1) {{ jump @f{n}; }} b{n}(); @f{n}; c{n}();",
+    "call": "if ($A == 1) {{ call @f{n}; }} b{n}(); @f{n}; c{n}();",
+    "with": "with (actor 1) {{ b{n}(); }}",
+    "macro": "~tm(1);",
+}
+TEMPLATE_MACRO = "macro tm($a) {\n    if ($a == 1) {\n        return;\n    }\n    m($a);\n}\n"
+
+
+def template_program(rng: random.Random) -> str:
+    names = sorted(TEMPLATES)
+    k = rng.choice([1, 1, 2, 2, 3])
+    picks = [rng.choice(names) for _ in range(k)]
+    body = "\n    ".join(TEMPLATES[p].format(n=i) for i, p in enumerate(picks))
+    term = rng.choice(["end;", "hold;", "return;"])
+    hdr = rng.choice(["def 0 {", "def 0 {", "def 0 for actor ACTOR_X {", "coro CORO_T {"])
+    src = (TEMPLATE_MACRO if "macro" in picks else "") + f"{hdr}\n    {body}\n    {term}\n}}\n"
+    shape = rng.random()
+    if shape < 0.25:
+        p2 = rng.choice(names)
+        src += f"def 1 {{\n    {TEMPLATES[p2].format(n=9)}\n    end;\n}}\n" if not hdr.startswith("coro") else f"coro CORO_U {{\n    {TEMPLATES[p2].format(n=9)}\n    end;\n}}\n"
+    elif shape < 0.4 and not hdr.startswith("coro"):
+        # routines of different kinds in one file: a coroutine that is not the first routine
+        src += "coro CORO_MID {\n    mid();\n    return;\n}\ndef 2 for object 3 {\n    last();\n    end;\n}\n"
+    return ("// " + "+".join(picks) + "\n" if rng.random() < 0.3 else "") + src
+
+
 def gen_world(run_seed: int) -> dict:
     rng = seeds.stream(run_seed, "cliworld")
     v = Vfs("/proj")
     v.write("/proj/settings.json", json.dumps(SETTINGS))
-    kind = rng.choice(["gen", "gen", "gen", "jumpy", "macros", "invalid"])
+    kind = rng.choice(["gen", "gen", "gen", "jumpy", "macros", "invalid", "template", "template", "template"])
     lookup_args: list[str] = []
     lookup_abs: list[str] = []
     main = "/proj/SCRIPT/main.exps"
     if kind == "jumpy":
         v.write(main, rng.choice(JUMPY))
+    elif kind == "template":
+        v.write(main, template_program(rng))
     elif kind == "invalid":
         from engines.histworld import INVALID_TEXTS
 
@@ -262,6 +312,11 @@ def handbuilt_documents() -> list[tuple[str, dict]]:
         {"type": "ACTOR", "target_id": 2, "ops": [{"opcode": "test_actor_id", "params": []}, {"opcode": "End", "params": []}]},
         {"type": "OBJECT", "target_id": "OBJECT_X_1", "ops": [{"opcode": "o", "params": []}, {"opcode": "End", "params": []}]},
         {"type": "PERFORMER", "target_id": 0, "ops": [{"opcode": "p", "params": []}, {"opcode": "End", "params": []}]}])))
+    out.append(("coroutine_after_other_routines", doc([
+        {"type": "GENERIC", "ops": [{"opcode": "a", "params": []}, {"opcode": "End", "params": []}]},
+        {"type": "COROUTINE", "name": "CORO_X", "ops": [{"opcode": "x", "params": []}, {"opcode": "Return", "params": []}]},
+        {"type": "ACTOR", "target_id": 0, "ops": [{"opcode": "b", "params": []}, {"opcode": "End", "params": []}]},
+        {"type": "COROUTINE", "name": "CORO_Y", "ops": [{"opcode": "y", "params": []}, {"opcode": "End", "params": []}]}])))
     # jump parameters are 1-based positions counted across all routines (the example of the docs)
     out.append(("jumps_are_1_based_positions", doc([
         {"type": "GENERIC", "ops": [{"opcode": "a", "params": []}, {"opcode": "End", "params": []}]},
